@@ -1,31 +1,32 @@
 #!/bin/bash
-# usage: scripts/intake.sh <agent-worktree> <variant a|b> <name>
+# usage: scripts/intake.sh <agent-worktree> <variant a|b> <name> [file-prefix, default SEED]
 # Independently confirms a seeded change delivered by a sub-agent and, if confirmed, stores it under /verif/seeded/<name>/.
 # Confirms: patch applies to /repo HEAD, builds, the existing suite passes with it, the demonstration fails with it and
 # passes without it. Everything runs in fresh scratch worktrees that are removed afterwards.
 set -uo pipefail
 HERE="$(cd "$(dirname "$0")/.." && pwd)"
-SRC="$1"; V="$2"; NAME="$3"
+SRC="$1"; V="$2"; NAME="$3"; PFX="${4:-SEED}"
+TMPO="$(mktemp /tmp/intake-out.XXXXXX)"; TMPS="$(mktemp /tmp/intake-suite.XXXXXX)"
 export GOFLAGS=-mod=mod GOPROXY=off; unset GOTOOLCHAIN GOSUMDB
-diff="$SRC/SEED_$V.diff"; demo="$SRC/SEED_${V}_demo_test.go.txt"; meta="$SRC/SEED_$V.json"
+diff="$SRC/${PFX}_$V.diff"; demo="$SRC/${PFX}_${V}_demo_test.go.txt"; meta="$SRC/${PFX}_$V.json"
 for f in "$diff" "$demo" "$meta"; do [ -s "$f" ] || { echo "missing $f"; exit 2; }; done
 pkg="$(python3 -c "import json;print(json.load(open('$meta'))['demo_pkg_dir'])")"
 tname="$(grep -o 'func Test[A-Za-z0-9_]*' "$demo" | head -1 | sed 's/func //')"
 wt="$(mktemp -d /tmp/intake.XXXXXX)"; rmdir "$wt"
 git -C /repo worktree add -q --detach "$wt" HEAD
-cleanup() { git -C /repo worktree remove --force "$wt" 2>/dev/null; }
+cleanup() { git -C /repo worktree remove --force "$wt" 2>/dev/null; rm -f "$TMPO" "$TMPS"; }
 trap cleanup EXIT
 # demo on the unchanged tree
 cp "$demo" "$wt/$pkg/zz_seed_demo_test.go"
-if ! (cd "$wt/$pkg" && go test -count=1 -run "^${tname}\$" . >/tmp/intake.out 2>&1); then echo "REJECT: demo fails on the unchanged tree"; tail -20 /tmp/intake.out; exit 1; fi
+if ! (cd "$wt/$pkg" && go test -count=1 -run "^${tname}\$" . >"$TMPO" 2>&1); then echo "REJECT: demo fails on the unchanged tree"; tail -20 "$TMPO"; exit 1; fi
 echo "demo passes on the unchanged tree"
 git -C "$wt" apply "$diff" || { echo "REJECT: patch does not apply"; exit 1; }
 (cd "$wt" && go build ./... ) || { echo "REJECT: does not build"; exit 1; }
-if (cd "$wt/$pkg" && go test -count=1 -run "^${tname}\$" . >/tmp/intake.out 2>&1); then echo "REJECT: demo passes with the change"; exit 1; fi
-echo "demo fails with the change: $(grep -m1 -E '^\s+.*_test.go:[0-9]+:|panic:|FAIL' /tmp/intake.out | head -1 | cut -c1-200)"
+if (cd "$wt/$pkg" && go test -count=1 -run "^${tname}\$" . >"$TMPO" 2>&1); then echo "REJECT: demo passes with the change"; exit 1; fi
+echo "demo fails with the change: $(grep -m1 -E '^\s+.*_test.go:[0-9]+:|panic:|FAIL' "$TMPO" | head -1 | cut -c1-200)"
 rm "$wt/$pkg/zz_seed_demo_test.go"
 # existing suite with the change
-if ! (cd "$wt" && go test -vet=off -count=1 -timeout 20m ./... >/tmp/intake.suite 2>&1); then echo "REJECT: existing suite fails with the change"; grep -E "^(--- FAIL|FAIL)" /tmp/intake.suite | head; exit 1; fi
+if ! (cd "$wt" && go test -vet=off -count=1 -timeout 20m ./... >"$TMPS" 2>&1); then echo "REJECT: existing suite fails with the change"; grep -E "^(--- FAIL|FAIL)" "$TMPS" | head; exit 1; fi
 echo "existing suite passes with the change"
 mkdir -p "$HERE/seeded/$NAME"
 cp "$diff" "$HERE/seeded/$NAME/patch.diff"
